@@ -3342,17 +3342,20 @@ class StateEngine(object):
                 if error_type:
                     handle_error(state, error_type, error_message)
 
+            """
+            A terminal Map or Parallel state ends the (sub) execution here. That
+            deletes the branch results for the current execution, but event_ids
+            still refers to the list of events held for this join. Ending the
+            execution comes first, so that the events which led to it are only
+            acknowledged once its outcome has been recorded and broadcast.
+            """
+            if state.get("End"):
+                handle_terminal_state(state_type, event)
+
             # Acknowledge the events for each branch's terminal state
             #print("Result - event_ids:")
             #print(event_ids)
             self.acknowledge_event_list(event_ids)
-
-            """
-            Need to do this *after* acknowledging the events as it deletes the
-            Parallel or Map branch results for the current execution.
-            """
-            if state.get("End"):
-                handle_terminal_state(state_type, event)
 
 
         """
